@@ -325,7 +325,7 @@ func runC10(c *Ctx, r *Report) {
 
 func init() {
 	register("C10", &propDef{
-		explain: "Restoration rules for session state, decided on code shape: the fields of eval.State that are swapped around a re-entry into the evaluator are derived (scope, output writer, depth, pipe value) and each must be reset by State.Reset / EvalOne's recover block / a defer (panic path) and restored on every return path (error path); registers on the session environment are released on all exits including panics; failed calls are never stored in the function cache; every input gets a fresh context whose cancel is deferred. Equality of later outputs with a history in which the failing input never happened is not decided.",
+		explain: "Restoration rules for session state, decided on code shape: the fields of eval.State that are swapped around a re-entry into the evaluator are derived (scope, output writer, depth, pipe value) and each must be reset by State.Reset / EvalOne's recover block / a defer (panic path) and restored on every return path (error path); registers on the session environment are released on all exits including panics; failed calls are never stored in the function cache; every input gets a fresh context whose cancel is deferred. Equality of later outputs with a history in which the failing input never happened is not decided. Also: State.Reset writes transient fields only, and what it writes is not computed from the fields it discards.",
 		assume:  []string{"side effects completed before the failure (assignments to globals, files) are outside the property by its own wording", "extension callbacks that replace s.Context/s.Cancel (read, run) are re-initialised by SetContext at the next input"},
 		run:     runC10,
 	})
